@@ -179,7 +179,8 @@ def judge(trace, prop, module='TraceProps', extra_env=None, nproc=NPROC, max_cas
         mj = JUDGED_RE.search(out)
         mb = BAD_RE.search(out)
         if rc != 0 or not mj or not mb:
-            raise ToolError('TLC trace validation failed on %s:\n%s' % (pp, out[-3000:]))
+            k = out.find('Error:')
+            raise ToolError('TLC trace validation failed on %s:\n%s' % (pp, out[k:k + 2500] if k >= 0 else out[-2500:]))
         bad = [(first + i - 1, cls) for i, cls in parse_tla_set(mb.group(1))]
         gen_states, _ = parse_stats(out)
         return int(mj.group(1)), bad, gen_states
